@@ -6,6 +6,7 @@ Open Scope Z_scope.
 
 Inductive case :=
 | CScen (cls : list scl) (ghosts : list (Z * list Z))    (* ghost objects: name, server names; synced after the clusters *)
+        (unh : list Z)     (* endpoints (local numbers, cluster of the action) made unhealthy before the drain *)
         (reqs : list sreq) (act : saction) (after : list sreq)
         (ro ao : list robs) (co : list clobs)
 | CBroken.
@@ -54,11 +55,25 @@ Definition all_on (names : list Z) : list (Z * bool) := map (fun n => (n, false)
 
 (* every sync of the pre-history, then the sync that lists everything enabled; every probe that can be
    answered is answered 200 after each sync (the stub upstreams answer /healthz at once) *)
-Definition answer_all (s : st) : st := run code_ctxcheck s (map (fun e => OHealthy (eobj e)) (eps s)).
+Definition answer_all (s : st) : st := run code_ctxcheck s (map (fun e => OHealthy (eobj e) true) (eps s)).
 
 Definition setup_cluster (cls : list scl) (s : st) (ci : nat) : st :=
   let syncs := map (servers_of (ep_names cls ci)) (cl_pre cls ci) ++ [all_on (ep_names cls ci)] in
   fold_left (fun acc sv => answer_all (run code_ctxcheck acc [OUpsert (cl_name cls ci) (cl_aliases cls ci) sv])) syncs s.
+
+(* what the pre-history shows after each sync: per endpoint name (in the map?, is the context of the object
+   that was in the map before the sync done now?) *)
+Definition live_obj (s : st) (n : Z) : option epo := find (fun e => elive e && (ename e =? n)) (eps s).
+Definition pre_row (before after : st) (names : list Z) : list (bool * bool) :=
+  map (fun n => (match live_obj after n with Some _ => true | None => false end,
+                 match live_obj before n with Some e => ep_done_obj after (eobj e) | None => false end)) names.
+Definition pre_rows (cls : list scl) (s : st) (ci : nat) : list (list (bool * bool)) :=
+  let syncs := map (servers_of (ep_names cls ci)) (cl_pre cls ci) ++ [all_on (ep_names cls ci)] in
+  snd (fold_left (fun (acc : st * list (list (bool * bool))) sv =>
+                    let s' := answer_all (run code_ctxcheck (fst acc) [OUpsert (cl_name cls ci) (cl_aliases cls ci) sv]) in
+                    (s', snd acc ++ [pre_row (fst acc) s' (ep_names cls ci)])) syncs (s, [])).
+(* state before cluster ci is set up *)
+Definition setup_upto (cls : list scl) (ci : nat) : st := fold_left (setup_cluster cls) (seq 0 ci) init.
 
 Definition setup (cls : list scl) (ghosts : list (Z * list Z)) : st :=
   let s := fold_left (setup_cluster cls) (seq 0 (List.length cls)) init in
@@ -79,13 +94,34 @@ Fixpoint bring_all (cls : list scl) (s : st) (id : Z) (qs : list sreq) (os : lis
   | _, _ => s
   end.
 
+Definition act_cl (act : saction) : option nat :=
+  match act with ADelete c _ | ARemove c _ _ => Some c | _ => None end.
+Definition act_drain (act : saction) : list Z :=
+  match act with ADelete _ d | ARemove _ _ d => d | _ => [] end.
+
+(* the server list of cluster ci with the drained endpoints disabled, minus [gone] *)
+Definition drained_servers (cls : list scl) (ci : nat) (drain gone : list Z) : list (Z * bool) :=
+  map (fun n => (n, zin (n - offset cls ci) drain))
+      (filter (fun n => negb (zin (n - offset cls ci) gone)) (ep_names cls ci)).
+
+(* before the removal: the endpoints of [unh] start failing their probes, then the drain sync marks the
+   endpoints of [drain] disabled (requests in flight go on) *)
+Definition drain_ops (cls : list scl) (s : st) (act : saction) (unh : list Z) : list op :=
+  match act_cl act with
+  | None => []
+  | Some ci =>
+      map (fun e => OHealthy (eo_of s (offset cls ci + e)) false) unh
+      ++ match act_drain act with
+         | [] => []
+         | d => [OUpsert (cl_name cls ci) (cl_aliases cls ci) (drained_servers cls ci d [])]
+         end
+  end.
+
 Definition act_op (cls : list scl) (ghosts : list (Z * list Z)) (act : saction) : list op :=
   match act with
   | AGhost g => match nth_error ghosts g with Some x => [ODelete (fst x)] | None => [] end
-  | ADelete ci => [ODelete (cl_name cls ci)]
-  | ARemove ci eps =>
-      [OUpsert (cl_name cls ci) (cl_aliases cls ci)
-               (all_on (filter (fun n => negb (zin (n - offset cls ci) eps)) (ep_names cls ci)))]
+  | ADelete ci _ => [ODelete (cl_name cls ci)]
+  | ARemove ci eps d => [OUpsert (cl_name cls ci) (cl_aliases cls ci) (drained_servers cls ci d eps)]
   | ANone => []
   end.
 
@@ -149,11 +185,12 @@ Definition cl_agrees (cls : list scl) (s0 s : st) (evs : list event) (ci : nat) 
                  end) (ep_names cls ci) (o_eps c)
   end.
 
-Definition agree (cls : list scl) (ghosts : list (Z * list Z)) (reqs : list sreq) (act : saction) (after : list sreq)
-                 (ro ao : list robs) (co : list clobs) : bool :=
+Definition agree (cls : list scl) (ghosts : list (Z * list Z)) (unh : list Z) (reqs : list sreq) (act : saction)
+                 (after : list sreq) (ro ao : list robs) (co : list clobs) : bool :=
   let s0 := setup cls ghosts in
   let s1 := bring_all cls s0 0 reqs ro in
-  let s2 := run code_ctxcheck s1 (act_op cls ghosts act) in
+  let s1d := run code_ctxcheck s1 (drain_ops cls s1 act unh) in
+  let s2 := run code_ctxcheck s1d (act_op cls ghosts act) in
   let s3 := wind_all s2 0 reqs ro in
   let s4 := bring_all cls s3 1000 after ao in
   let s5 := wind_all s4 1000 after ao in
@@ -161,12 +198,14 @@ Definition agree (cls : list scl) (ghosts : list (Z * list Z)) (reqs : list sreq
   forallb o_reached ro
   && (Nat.eqb (List.length reqs) (List.length ro)) && (Nat.eqb (List.length after) (List.length ao))
   && reqs_agree s6 0 ro && reqs_agree s6 1000 ao
-  && alli O (cl_agrees cls s0 s6 evs) co && Nat.eqb (List.length co) (List.length cls).
+  && alli O (cl_agrees cls s0 s6 evs) co && Nat.eqb (List.length co) (List.length cls)
+  && alli O (fun ci c => list_eqb (list_eqb (fun a b => Bool.eqb (fst a) (fst b) && Bool.eqb (snd a) (snd b)))
+                                  (pre_rows cls (setup_upto cls ci) ci) (o_pre c)) co.
 
 (* clause layout: agree, not_routed, inflight_cut, prompt, probing_stops, others_unaffected *)
 Definition eval (c : case) : list bool :=
   match c with
-  | CScen cls ghosts reqs act after ro ao co =>
-      agree cls ghosts reqs act after ro ao co :: scen_ok cls reqs act after ro ao co
+  | CScen cls ghosts unh reqs act after ro ao co =>
+      agree cls ghosts unh reqs act after ro ao co :: scen_ok cls reqs act after ro ao co
   | CBroken => [false; true; true; true; true; true]
   end.
